@@ -9,6 +9,7 @@ pub mod atomic;
 pub mod cell;
 pub mod cfg;
 pub mod engine;
+pub mod sync;
 pub mod tls;
 
 pub use engine::*;
